@@ -16,17 +16,23 @@ PROP_UNITS = {
     "C04": [("state", ())],
     "C05": [("handle_a", TF), ("handle_b", TF), ("handle_b2", TF), ("handle_c", TF), ("spec", TF)],
     "C06": [("state", ())],
+    "C07": [("state", ())],
     "C08": [("state", ())],
     "C09": [("state", ())],
     "C13": [("logger", TF)],
+    "C14": [("state", ())],
     "C15": [("state", ())],
     "C18": [("state", ())],
     "C19": [("state", ()), ("logger", TF)],
 }
 
 # property -> Kani groups (see lib/kani_unit.py)
-PROP_KANI = {
-}
+ALL_KANI = ["size_rotation_necessary_contract", "increase_size_contract", "rotation_necessary_size", "naming_state_writes_direct",
+            "level_vs_filter", "level_vs_level", "filter_vs_filter", "duplicate_u8_round_trip", "duplicate_from_u8_total_on_encodings",
+            "cleanup_keeps_newest_n0", "cleanup_keeps_newest_n1", "cleanup_keeps_newest_n2", "cleanup_keeps_newest_n3",
+            "cleanup_keeps_newest_n4", "cleanup_keeps_newest_n5"]
+# the harnesses are selected per property by their own property tags (lib/kani_unit.py HARNESSES)
+PROP_KANI = {p: ALL_KANI for p in ("C01", "C02", "C05", "C07", "C08", "C13", "C14")}
 
 # C10 (panic freedom) owns every safety obligation Verus generates in every unit
 C10_UNITS = sorted({(u, f) for u, fs in UNITS.items() for f in fs})
